@@ -346,16 +346,10 @@ func runSeq(r *lib.Run, c *seqCase, dir string, st *stats) {
 				continue
 			}
 			// refuting observation: classify
+			// 1. bytes stored under another fid (same needle key first: the listed disk-tier finding)
 			class, alias, other := "garbage", "none", ""
-			for _, v := range s.versions {
-				sv := append([]byte{}, v...)
-				scribble(sv)
-				if len(v) > 0 && matches(o.Kind, sv, got, o) {
-					class = "store-buffer-aliased" // the bytes the caller wrote into its own buffer after SetChunk returned
-				}
-			}
 			for j, t := range states {
-				if j == o.Fid || class == "store-buffer-aliased" {
+				if j == o.Fid {
 					continue
 				}
 				for _, v := range t.versions {
@@ -373,8 +367,15 @@ func runSeq(r *lib.Run, c *seqCase, dir string, st *stats) {
 					break
 				}
 			}
-			if class == "store-buffer-aliased" {
-				alias, other = "none", ""
+			// 2. only when nothing stored anywhere explains the result: the bytes the caller wrote
+			// into its own buffer after the LAST SetChunk of this fid returned, while that store can
+			// still sit in the memory tier (stored since the cache object was created, fits the tier)
+			if class == "garbage" && s.sinceStart && len(s.latest) > 0 && len(s.latest) <= unit {
+				sv := append([]byte{}, s.latest...)
+				scribble(sv)
+				if matches(o.Kind, sv, got, o) {
+					class = "store-buffer-aliased"
+				}
 			}
 			if class == "garbage" && len(s.versions) > 0 {
 				class = "wrong-bytes-of-same-fid" // e.g. wrong offset, short or long slice
